@@ -1,75 +1,327 @@
-(* C05 -- concurrent model: the update region (announceUpdate from the clock read to the last send_reply) of one
-   module is executed by at most one thread at a time, for every schedule, when the body is enclosed by the lock *)
+(* C05 -- concurrent model (driver threads, connection threads, dynamic subscriptions), all source shapes present
+   (flags_ok): inversion of one thread step, well-formedness, mutual exclusion of the update regions of a module *)
 From Coq Require Import ZArith NArith Bool List Arith Lia.
 Import ListNotations.
 Require Import FV.Base.Util FV.Base.F64 FV.Base.PyVal FV.C01.Model FV.C05.Model FV.C05.Lemmas.
 
-Definition exclusive (G : config) (ts : list thread) : Prop :=
-  forall a b ta tb m, nth_error ts a = Some ta -> nth_error ts b = Some tb ->
-    holds_U G (Some m) ta = true -> holds_U G (Some m) tb = true -> a = b.
+Notation FK := flags_ok.
 
-Lemma first_park_free G ops m ops' : holds_U G m {| t_ops := ops'; t_pk := first_park G ops |} = false.
+(* ------------------------------------------------------------------ parks at which a thread claims nothing *)
+Definition idle_pk (k : park) : bool :=
+  match k with KStart | KAcqA | KDrv | KAcqU _ | KConn | KReg | KEnd => true | _ => false end.
+
+Lemma first_park_idle G ops : idle_pk (first_park G FK ops) = true.
 Proof.
-  unfold holds_U, first_park; simpl. destruct ops as [|o r]; auto.
+  unfold first_park. destruct ops as [|[o|k [sc|sc|]] r]; simpl; auto.
   destruct (needs_access o); auto. destruct (nth_error _ _); auto. destruct (snd _); auto.
 Qed.
-Lemma finish_free G t m : holds_U G m (finish_op G t) = false.
-Proof. unfold finish_op. apply first_park_free. Qed.
+Lemma finish_idle G t : idle_pk (t_pk (finish_op G FK t)) = true.
+Proof. unfold finish_op; simpl. apply first_park_idle. Qed.
+
+(* parks at which a thread owes nobody a message *)
+Definition quiet_pk (k : park) : bool :=
+  match k with KSend _ _ | KSendL _ _ _ | KAcqS _ | KSnap _ _ _ => false | _ => true end.
+
+Lemma idle_not_holding G t m : idle_pk (t_pk t) = true -> holds_U G FK m t = false.
+Proof. unfold holds_U. destruct (t_pk t); simpl; auto; discriminate. Qed.
+
+(* ------------------------------------------------------------------ one thread step, by kind *)
+Inductive skind (G : config) (st : state) (ss : subs) (ts : list thread) (i : nat) (t : thread)
+  : list action -> thread -> Prop :=
+| SK_idle acts t' :
+    (forall a, In a acts -> exists P o, a = AHeap P o) -> idle_pk (t_pk t') = true -> quiet_pk (t_pk t) = true ->
+    skind G st ss ts i t acts t'
+| SK_clock o r inp :
+    t_ops t = JOp o :: r -> t_pk t = KAcqU inp -> other_has (holds_U G FK (op_mod G o)) i 0 ts = false ->
+    skind G st ss ts i t [] (park_at t (KClock inp))
+| SK_fun o r inp P :
+    t_ops t = JOp o :: r -> nth_error (g_params G) (o_p o) = Some P ->
+    (t_pk t = KClock inp \/ (t_pk t = KAcqU inp /\ other_has (holds_U G FK (op_mod G o)) i 0 ts = false)) ->
+    skind G st ss ts i t [AFun P o inp] (snd (do_funnel G FK P o inp st ss t))
+| SK_send m k rest :
+    t_pk t = KSend m (k :: rest) ->
+    skind G st ss ts i t [ASend k m] (match rest with [] => finish_op G FK t | _ => park_at t (KSend m rest) end)
+| SK_unreg k a r :
+    t_ops t = JConn k a :: r -> t_pk t = KConn -> skind G st ss ts i t [AUnreg k a] (finish_op G FK t)
+| SK_reg k sc r :
+    t_ops t = JConn k (AActivate sc) :: r -> t_pk t = KReg ->
+    skind G st ss ts i t [AReg k sc] (match scope_mods G sc with [] => finish_op G FK t | ms => park_at t (KAcqS ms) end)
+| SK_acqS k sc r m ms :
+    t_ops t = JConn k (AActivate sc) :: r -> t_pk t = KAcqS (m :: ms) ->
+    other_has (holds_U G FK (Some m)) i 0 ts = false ->
+    skind G st ss ts i t (fst (snap_next G FK st t k (snap_params G sc m) ms))
+                         (snd (snap_next G FK st t k (snap_params G sc m) ms))
+| SK_snap k sc r m ps ms :
+    t_ops t = JConn k (AActivate sc) :: r -> t_pk t = KSnap m ps ms ->
+    skind G st ss ts i t (ASnapSend k m :: fst (snap_next G FK (deliver st k m) t k ps ms))
+                         (snd (snap_next G FK (deliver st k m) t k ps ms)).
+
+Lemma drv_step_kind G st ss ts i t o :
+  quiet_pk (t_pk t) = true ->
+  skind G st ss ts i t (fst (drv_step G FK st t o)) (snd (drv_step G FK st t o)).
+Proof.
+  intros Q. unfold drv_step. destruct (nth_error _ _) as [P|]; [destruct (snd (pre P (s_heap st) o))|]; simpl;
+    apply SK_idle; simpl; auto using first_park_idle; try tauto; try (intros a [<-|[]]; eauto).
+Qed.
+
+Lemma tstep_kind G st ss ts i t acts t' :
+  (forall m k n, t_pk t <> KSendL m k n) ->
+  tstep G FK st ss ts i t = Some (acts, t') -> skind G st ss ts i t acts t'.
+Proof.
+  intros NL. unfold tstep.
+  destruct (t_pk t) eqn:K; try (exfalso; eapply NL; eauto; fail).
+  - intros E; inversion E; subst. apply SK_idle; simpl; [tauto|apply first_park_idle|rewrite K; reflexivity].
+  - destruct (t_ops t) as [|[o|k a] r] eqn:O; try discriminate.
+    destruct (other_has _ _ _ _); try discriminate. destruct (has_driver G o).
+    + intros E; inversion E; subst. apply SK_idle; simpl; auto; try tauto. rewrite K; reflexivity.
+    + intros E; inversion E. rewrite (surjective_pairing (drv_step G FK st t o)) in H0. inversion H0; subst.
+      apply drv_step_kind. rewrite K; reflexivity.
+  - destruct (t_ops t) as [|[o|k a] r] eqn:O; try discriminate.
+    intros E; inversion E. rewrite (surjective_pairing (drv_step G FK st t o)) in H0. inversion H0; subst.
+    apply drv_step_kind. rewrite K; reflexivity.
+  - destruct (t_ops t) as [|[o|k a] r] eqn:O; try discriminate. simpl.
+    destruct (other_has (holds_U G FK (op_mod G o)) i 0 ts) eqn:Oth; try discriminate.
+    destruct (Z.eqb _ _).
+    + intros E; inversion E; subst. eapply SK_clock; eauto.
+    + destruct (nth_error (g_params G) (o_p o)) as [P|] eqn:EP.
+      * intros E; injection E as E'. unfold do_funnel in E'. inversion E'; subst.
+        exact (SK_fun G st ss ts i t o r inp P O EP (or_intror (conj K Oth))).
+      * intros E; inversion E; subst. apply SK_idle; simpl; [tauto|apply finish_idle|rewrite K; reflexivity].
+  - destruct (t_ops t) as [|[o|k a] r] eqn:O; try discriminate.
+    destruct (nth_error (g_params G) (o_p o)) as [P|] eqn:EP.
+    + intros E; injection E as E'. unfold do_funnel in E'. inversion E'; subst.
+      exact (SK_fun G st ss ts i t o r inp P O EP (or_introl K)).
+    + intros E; inversion E; subst. apply SK_idle; simpl; [tauto|apply finish_idle|rewrite K; reflexivity].
+  - destruct rest as [|k rest]; try discriminate.
+    destruct rest; intros E; inversion E; subst; exact (SK_send G st ss ts i t m k _ K).
+  - destruct (t_ops t) as [|[o|k a] r] eqn:O; try discriminate.
+    intros E; inversion E; subst. eapply SK_unreg; eauto.
+  - destruct (t_ops t) as [|[o|k [sc|sc|]] r] eqn:O; try discriminate. simpl.
+    pose proof (SK_reg G st ss ts i t k sc r O K) as Q.
+    destruct (scope_mods G sc); intros E; inversion E; subst; exact Q.
+  - destruct ms as [|m ms]; try discriminate.
+    destruct (t_ops t) as [|[o|k [sc|sc|]] r] eqn:O; try discriminate. simpl.
+    destruct (other_has (holds_U G FK (Some m)) i 0 ts) eqn:Oth; try discriminate.
+    intros E; inversion E. rewrite (surjective_pairing (snap_next _ _ _ _ _ _ _)) in H0. inversion H0; subst.
+    eapply SK_acqS; eauto.
+  - destruct (t_ops t) as [|[o|k [sc|sc|]] r] eqn:O; try discriminate.
+    destruct (snap_next G FK (deliver st k m) t k ps ms) as [a0 t0] eqn:SN.
+    intros E; inversion E; subst.
+    pose proof (SK_snap G st ss ts i t k sc r m ps ms O K) as Q. rewrite SN in Q. exact Q.
+  - discriminate.
+Qed.
+
+(* ------------------------------------------------------------------ snap_next by cases *)
+Lemma snap_next_cases G st t k ps ms :
+  (exists p ps' P c, ps = p :: ps' /\ nth_error (g_params G) p = Some P /\ nth_error (s_cells st) p = Some c /\
+      snap_next G FK st t k ps ms = ([ASnap k P p], park_at t (KSnap (render G (s_heap st) P p c) ps' ms)))
+  \/ (ps = [] /\ ms <> [] /\ snap_next G FK st t k ps ms = ([], park_at t (KAcqS ms)))
+  \/ (snap_next G FK st t k ps ms = ([], finish_op G FK t) /\
+      (ps = [] /\ ms = [] \/
+       exists p ps', ps = p :: ps' /\ (nth_error (g_params G) p = None \/ nth_error (s_cells st) p = None))).
+Proof.
+  unfold snap_next, render_at. destruct ps as [|p ps'].
+  - destruct ms; [right; right|right; left]; simpl; auto. repeat split; auto; discriminate.
+  - destruct (nth_error (g_params G) p) as [P|] eqn:EP.
+    + destruct (nth_error (s_cells st) p) as [c|] eqn:EC; simpl.
+      * left. exists p, ps', P, c. auto.
+      * right; right. split; auto. right. eauto.
+    + right; right. split; auto. right. eauto.
+Qed.
+
+Lemma in_mod_spec G m p : in_mod G m p = true <-> exists P, nth_error (g_params G) p = Some P /\ p_mod P = m.
+Proof.
+  unfold in_mod. destruct (nth_error _ _) as [P|].
+  - rewrite Nat.eqb_eq. split; [eauto|]. intros (P' & E & M); inversion E; subst; auto.
+  - split; [discriminate|]. intros (P' & E & _); discriminate.
+Qed.
+Lemma in_mod_msg_mod G m msg : in_mod G m (m_p msg) = true -> msg_mod G msg = Some m.
+Proof. intros H. apply in_mod_spec in H. destruct H as (P & E & M). unfold msg_mod. rewrite E; simpl; congruence. Qed.
+
+Lemma snap_params_in G sc m p : In p (snap_params G sc m) -> in_mod G m p = true /\ covers G sc p = true.
+Proof. unfold snap_params. rewrite filter_In. intros (_ & H). apply andb_prop in H; tauto. Qed.
+
+(* ------------------------------------------------------------------ well-formedness *)
+Lemma dlisteners_from_ge G p k ss x : In x (dlisteners_from G p k ss) -> k <= x.
+Proof.
+  revert k; induction ss as [|scs r IH]; intros k; simpl; [tauto|].
+  destruct (sub_covers G scs p); simpl; [intros [<-|H]; auto|intros H]; apply IH in H; lia.
+Qed.
+Lemma dlisteners_from_nodup G p k ss : NoDup (dlisteners_from G p k ss).
+Proof.
+  revert k; induction ss as [|scs r IH]; intros k; simpl; [constructor|].
+  destruct (sub_covers G scs p); auto. constructor; auto. intros H. apply dlisteners_from_ge in H. lia.
+Qed.
+Lemma dlisteners_nodup G ss p : NoDup (dlisteners G ss p).
+Proof. apply dlisteners_from_nodup. Qed.
+
+Definition wf_thread (G : config) (t : thread) : Prop :=
+  match t_pk t with
+  | KSend m rest => (exists o r P, t_ops t = JOp o :: r /\ m_p m = o_p o /\ nth_error (g_params G) (o_p o) = Some P)
+                    /\ NoDup rest
+  | KSnap m ps ms => exists k sc r mo, t_ops t = JConn k (AActivate sc) :: r /\
+                       in_mod G mo (m_p m) = true /\ Forall (fun p => in_mod G mo p = true) ps
+  | KSendL _ _ _ => False
+  | _ => True
+  end.
+Definition wf_cstate (G : config) (s : cstate) : Prop :=
+  length (s_cells (cs_st s)) = length (g_params G) /\
+  forall i t, nth_error (cs_thr s) i = Some t -> wf_thread G t.
+
+Lemma wf_idle G t : idle_pk (t_pk t) = true -> wf_thread G t.
+Proof. unfold wf_thread. destruct (t_pk t); simpl; auto; discriminate. Qed.
+
+Lemma wf_snap_next G st t k sc r ps ms mo :
+  t_ops t = JConn k (AActivate sc) :: r -> Forall (fun p => in_mod G mo p = true) ps ->
+  wf_thread G (snd (snap_next G FK st t k ps ms)).
+Proof.
+  intros O Fa. destruct (snap_next_cases G st t k ps ms) as [(p & ps' & P & c & -> & EP & EC & ->)|[(-> & _ & ->)|(-> & _)]]; simpl.
+  - unfold wf_thread; simpl. inversion Fa; subst. exists k, sc, r, mo. auto.
+  - exact I.
+  - apply wf_idle, finish_idle.
+Qed.
+
+Lemma skind_wf G st ss ts i t acts t' :
+  skind G st ss ts i t acts t' -> wf_thread G t -> wf_thread G t'.
+Proof.
+  intros K W. destruct K.
+  - apply wf_idle; auto.
+  - exact I.
+  - unfold do_funnel; simpl.
+    pose proof (ann_region_spec G (dlisteners G ss (o_p o)) P o inp st) as R.
+    destruct (nth_error (s_cells st) (o_p o)) as [c|].
+    + destruct R as (ts0 & c' & emit & s' & _ & _ & _ & _ & ->).
+      destruct (emit && exported P); [|apply wf_idle, finish_idle].
+      pose proof (dlisteners_nodup G ss (o_p o)) as ND.
+      destruct (dlisteners G ss (o_p o)) as [|k ks]; [apply wf_idle, finish_idle|].
+      unfold wf_thread; simpl. split; eauto 6.
+    + destruct R as (s' & -> & _). apply wf_idle, finish_idle.
+  - unfold wf_thread in W. rewrite H in W. destruct W as (W1 & W2). inversion W2; subst.
+    destruct rest as [|k' rest]; [apply wf_idle, finish_idle|]. unfold wf_thread; simpl. auto.
+  - apply wf_idle, finish_idle.
+  - destruct (scope_mods G sc); [apply wf_idle, finish_idle|exact I].
+  - eapply wf_snap_next with (mo := m); eauto. apply Forall_forall. intros p Hp. apply snap_params_in in Hp; tauto.
+  - unfold wf_thread in W. rewrite H0 in W. destruct W as (k0 & sc0 & r0 & mo & _ & _ & Fa).
+    eapply wf_snap_next; eauto.
+Qed.
+
+(* ------------------------------------------------------------------ one step of the system *)
+Definition eff (G : config) (acts : list action) (x : state * subs) : state * subs :=
+  fold_left (fun x a => ceff G a x) acts x.
+
+Lemma cstep_cases G s i :
+  wf_cstate G s ->
+  (cs_st (cstep G FK s i) = cs_st s /\ cs_subs (cstep G FK s i) = cs_subs s /\ cs_thr (cstep G FK s i) = cs_thr s)
+  \/ exists t acts t', nth_error (cs_thr s) i = Some t /\
+       skind G (cs_st s) (cs_subs s) (cs_thr s) i t acts t' /\ wf_thread G t /\
+       cs_thr (cstep G FK s i) = set_nth i t' (cs_thr s) /\
+       cs_st (cstep G FK s i) = fst (eff G acts (cs_st s, cs_subs s)) /\
+       cs_subs (cstep G FK s i) = snd (eff G acts (cs_st s, cs_subs s)).
+Proof.
+  intros (_ & W). unfold cstep. destruct (nth_error (cs_thr s) i) as [t|] eqn:Et; [|left; auto].
+  destruct (tstep G FK (cs_st s) (cs_subs s) (cs_thr s) i t) as [[acts t']|] eqn:Es; [|left; auto].
+  right. exists t, acts, t'. simpl. split; [reflexivity|]. split; [|split; [eauto|repeat split; auto]].
+  apply tstep_kind; auto. intros m k n E. specialize (W i t Et). unfold wf_thread in W. rewrite E in W. exact W.
+Qed.
+
+Lemma heap_acts_frame G acts x :
+  (forall a, In a acts -> exists P o, a = AHeap P o) ->
+  s_cells (fst (eff G acts x)) = s_cells (fst x) /\ s_log (fst (eff G acts x)) = s_log (fst x) /\
+  s_now (fst (eff G acts x)) = s_now (fst x) /\ snd (eff G acts x) = snd x.
+Proof.
+  unfold eff. revert x; induction acts as [|a r IH]; intros [st ss] H; simpl; auto.
+  destruct (H a (or_introl eq_refl)) as (P & o & ->). simpl.
+  destruct (IH (set_heap st (fst (pre P (s_heap st) o)), ss)) as (A & B & C & D); [intros; apply H; right; auto|].
+  simpl in *. auto.
+Qed.
+
+Lemma cstep_wf G s i : wf_cstate G s -> wf_cstate G (cstep G FK s i).
+Proof.
+  intros W. destruct (cstep_cases G s i W) as [(A & B & C)|(t & acts & t' & Et & K & Wt & Thr & St & Ss)].
+  - destruct W as (W1 & W2). split; [rewrite A; auto|rewrite C; auto].
+  - destruct W as (W1 & W2). split.
+    + rewrite St. clear Thr Ss. destruct K; try (simpl; auto; fail).
+      * destruct (heap_acts_frame G acts (cs_st s, cs_subs s) H) as (A & _). simpl in A. rewrite A; auto.
+      * simpl. pose proof (ann_region_spec G (dlisteners G (cs_subs s) (o_p o)) P o inp (cs_st s)) as R.
+        destruct (nth_error (s_cells (cs_st s)) (o_p o)).
+        -- destruct R as (ts0 & c' & emit & s' & _ & A & _ & _ & ->). simpl. rewrite A, set_nth_length; auto.
+        -- destruct R as (s' & -> & A & _). simpl. congruence.
+      * destruct (snap_next_cases G (cs_st s) t k (snap_params G sc m) ms)
+          as [(p & ps' & P & c & _ & _ & _ & ->)|[(_ & _ & ->)|(-> & _)]]; simpl; auto.
+      * simpl. destruct (snap_next_cases G (deliver (cs_st s) k m) t k ps ms)
+          as [(p & ps' & P & c & _ & _ & _ & ->)|[(_ & _ & ->)|(-> & _)]]; simpl; auto.
+    + rewrite Thr. intros j tj Ej. destruct (Nat.eq_dec i j) as [<-|N].
+      * rewrite (nth_set_nth_eq _ _ _ _ Et) in Ej. inversion Ej; subst. eapply skind_wf; eauto.
+      * rewrite nth_set_nth_neq in Ej by auto. eauto.
+Qed.
+
+Lemma crun_wf G sched : forall s, wf_cstate G s -> wf_cstate G (crun G FK s sched).
+Proof. unfold crun. induction sched; simpl; intros; auto. apply IHsched, cstep_wf; auto. Qed.
+
+Lemma cinit_wf G st ss progs : length (s_cells st) = length (g_params G) -> wf_cstate G (cinit st ss progs).
+Proof.
+  intros L. split; auto. unfold cinit; simpl. intros i t E. rewrite nth_error_map in E.
+  destruct (nth_error progs i); inversion E; subst. exact I.
+Qed.
+
+(* ------------------------------------------------------------------ mutual exclusion of the update regions *)
+Definition exclusive (G : config) (ts : list thread) : Prop :=
+  forall a b ta tb m, nth_error ts a = Some ta -> nth_error ts b = Some tb ->
+    holds_U G FK (Some m) ta = true -> holds_U G FK (Some m) tb = true -> a = b.
 
 Lemma holds_park_at G m t k :
-  holds_U G m (park_at t k) = match k with KClock _ | KSend _ _ => opt_nat_eqb (cur_mod G t) m | _ => false end.
+  holds_U G FK m (park_at t k) =
+  match k with
+  | KClock _ | KSend _ _ | KSendL _ _ _ => opt_nat_eqb (cur_mod G t) m
+  | KSnap msg _ _ => opt_nat_eqb (msg_mod G msg) m
+  | _ => false
+  end.
 Proof. unfold holds_U, park_at, cur_mod; simpl. destruct k; auto. Qed.
 
-Lemma do_funnel_holder G P o inp ts st t st' t' m :
-  do_funnel G P o inp ts st t = (st', t') -> holds_U G m t' = true -> opt_nat_eqb (cur_mod G t) m = true.
+Lemma opt_nat_eqb_some a m : opt_nat_eqb a (Some m) = true -> a = Some m.
+Proof. destruct a; simpl; try discriminate. intros H; apply Nat.eqb_eq in H; congruence. Qed.
+
+Lemma holds_snap_next G st t k ps ms mo m :
+  Forall (fun p => in_mod G mo p = true) ps ->
+  holds_U G FK (Some m) (snd (snap_next G FK st t k ps ms)) = true -> m = mo.
 Proof.
-  unfold do_funnel. destruct (apply_funnel _ _ _ _ _ _) as [[s1 ks] om].
-  destruct ks as [|k ks]; [|destruct om]; intros E H; inversion E; subst; clear E;
-    try (rewrite finish_free in H; discriminate).
-  rewrite holds_park_at in H; auto.
+  intros Fa. destruct (snap_next_cases G st t k ps ms) as [(p & ps' & P & c & -> & EP & EC & ->)|[(-> & _ & ->)|(-> & _)]]; simpl.
+  - rewrite holds_park_at. intros H. apply opt_nat_eqb_some in H. inversion Fa; subst.
+    rewrite (in_mod_msg_mod G mo (render G (s_heap st) P p c)) in H by (simpl; auto). congruence.
+  - rewrite holds_park_at. discriminate.
+  - rewrite idle_not_holding by apply finish_idle. discriminate.
 Qed.
 
-Lemma drv_step_free G st t o st' t' m : drv_step G st t o = (st', t') -> holds_U G m t' = false.
+(* a thread enters a region only through the lock *)
+Lemma skind_holder G st ss ts i t acts t' m :
+  skind G st ss ts i t acts t' -> wf_thread G t -> holds_U G FK (Some m) t' = true ->
+  holds_U G FK (Some m) t = true \/ other_has (holds_U G FK (Some m)) i 0 ts = false.
 Proof.
-  unfold drv_step. destruct (nth_error _ _); [destruct (pre _ _ _) as [h [i|]]|]; intros E; inversion E; subst;
-    try apply finish_free. rewrite holds_park_at; auto.
-Qed.
-
-(* a thread enters the region only through the lock *)
-Lemma tstep_holder G st ts i t st' t' m :
-  tstep G true st ts i t = Some (st', t') -> holds_U G (Some m) t' = true ->
-  holds_U G (Some m) t = true \/ other_has (holds_U G (Some m)) i 0 ts = false.
-Proof.
-  unfold tstep. destruct (t_pk t) eqn:K; destruct (t_ops t) as [|o r] eqn:O; intros E H; try discriminate.
-  - inversion E; subst. rewrite holds_park_at in H. destruct (first_park G []); discriminate.
-  - inversion E; subst. rewrite holds_park_at in H. unfold first_park in H.
-    destruct (needs_access o); try discriminate. destruct (nth_error _ _); try discriminate.
-    destruct (snd _); discriminate.
-  - destruct (other_has _ _ _ _); try discriminate. destruct (has_driver G o).
-    + inversion E; subst. rewrite holds_park_at in H; discriminate.
-    + inversion E as [E']. apply drv_step_free with (m := Some m) in E'. congruence.
-  - inversion E as [E']. apply drv_step_free with (m := Some m) in E'. congruence.
-  - simpl in E. destruct (other_has (holds_U G (op_mod G o)) i 0 ts) eqn:Oth; try discriminate.
-    assert (CM : cur_mod G t = op_mod G o) by (unfold cur_mod; rewrite O; reflexivity).
-    assert (Key : opt_nat_eqb (cur_mod G t) (Some m) = true -> other_has (holds_U G (Some m)) i 0 ts = false).
-    { rewrite CM. destruct (op_mod G o) as [x|]; simpl; try discriminate. intros Q; apply Nat.eqb_eq in Q; subst; auto. }
-    destruct (Z.eqb _ _).
-    + inversion E; subst. rewrite holds_park_at in H. right; auto.
-    + destruct (nth_error _ _).
-      * inversion E as [E']. right. apply Key. eapply do_funnel_holder; eauto.
-      * inversion E; subst. rewrite finish_free in H; discriminate.
-  - left. unfold holds_U. rewrite K.
-    destruct (nth_error _ _).
-    + inversion E as [E']. eapply do_funnel_holder; eauto.
-    + inversion E; subst. rewrite finish_free in H; discriminate.
-  - left. unfold holds_U. rewrite K. destruct rest as [|k rest]; try discriminate.
-    destruct rest; inversion E; subst.
-    + rewrite finish_free in H; discriminate.
-    + rewrite holds_park_at in H; auto.
-  - left. unfold holds_U. rewrite K. destruct rest as [|k rest]; try discriminate.
-    destruct rest; inversion E; subst.
-    + rewrite finish_free in H; discriminate.
-    + rewrite holds_park_at in H; auto.
+  intros K W H. destruct K.
+  - rewrite idle_not_holding in H by auto. discriminate.
+  - rewrite holds_park_at in H. right. apply opt_nat_eqb_some in H.
+    unfold cur_mod in H. rewrite H0 in H. rewrite H in H2. exact H2.
+  - unfold do_funnel in H; simpl in H.
+    assert (Q : opt_nat_eqb (cur_mod G t) (Some m) = true).
+    { destruct (ann_region _ _ _ _ _ _) as [[s1 ks] om]. destruct ks as [|k ks]; [|destruct om];
+        try (rewrite idle_not_holding in H by apply finish_idle; discriminate).
+      rewrite holds_park_at in H. exact H. }
+    destruct H2 as [K|(K & Oth)].
+    + left. unfold holds_U. rewrite K. exact Q.
+    + right. apply opt_nat_eqb_some in Q. unfold cur_mod in Q. rewrite H0 in Q. rewrite Q in Oth. exact Oth.
+  - left. destruct rest as [|k' rest].
+    + rewrite idle_not_holding in H by apply finish_idle. discriminate.
+    + rewrite holds_park_at in H. unfold holds_U. rewrite H0. exact H.
+  - rewrite idle_not_holding in H by apply finish_idle. discriminate.
+  - destruct (scope_mods G sc).
+    + rewrite idle_not_holding in H by apply finish_idle. discriminate.
+    + rewrite holds_park_at in H. discriminate.
+  - right. apply holds_snap_next with (mo := m0) in H.
+    + subst; auto.
+    + apply Forall_forall. intros p Hp. apply snap_params_in in Hp; tauto.
+  - left. unfold wf_thread in W. rewrite H1 in W. destruct W as (k0 & sc0 & r0 & mo & _ & Im & Fa).
+    apply holds_snap_next with (mo := mo) in H; auto. subst m.
+    unfold holds_U. rewrite H1. simpl. rewrite (in_mod_msg_mod G mo m0 Im). simpl. apply Nat.eqb_refl.
 Qed.
 
 Lemma other_has_true f i k ts b tb :
@@ -80,45 +332,69 @@ Proof.
     apply Nat.eqb_neq in N. rewrite N; reflexivity.
   - rewrite (IH (S k) b); auto; [apply orb_true_r | lia].
 Qed.
-
-Lemma cstep_exclusive G s i : exclusive G (cs_thr s) -> exclusive G (cs_thr (cstep G true s i)).
+Lemma other_has_false f i ts b tb :
+  other_has f i 0 ts = false -> nth_error ts b = Some tb -> b <> i -> f tb = false.
 Proof.
-  intros X. unfold cstep. destruct (nth_error (cs_thr s) i) as [t|] eqn:Et; auto.
-  destruct (tstep G true (cs_st s) (cs_thr s) i t) as [[st' t']|] eqn:Es; auto. simpl.
-  assert (Hold : forall m b tb, holds_U G (Some m) t' = true -> nth_error (cs_thr s) b = Some tb -> b <> i ->
-                   holds_U G (Some m) tb = true -> False).
-  { intros m b tb H Eb N Hb. destruct (tstep_holder _ _ _ _ _ _ _ m Es H) as [Q|Q].
-    - apply N. eapply X; eauto.
-    - rewrite (other_has_true _ i 0 _ b tb) in Q; auto; discriminate. }
+  intros H E N. destruct (f tb) eqn:F; auto. rewrite (other_has_true f i 0 ts b tb) in H; auto.
+Qed.
+
+(* if thread i holds U m, or is about to take it, nobody else holds it *)
+Definition sole (G : config) (ts : list thread) (i : nat) (m : nat) : Prop :=
+  forall b tb, nth_error ts b = Some tb -> b <> i -> holds_U G FK (Some m) tb = false.
+
+Lemma exclusive_sole G ts i t m :
+  exclusive G ts -> nth_error ts i = Some t -> holds_U G FK (Some m) t = true -> sole G ts i m.
+Proof.
+  intros X Et H b tb Eb N. destruct (holds_U G FK (Some m) tb) eqn:Hb; auto. exfalso; apply N. eapply X; eauto.
+Qed.
+Lemma other_sole G ts i m : other_has (holds_U G FK (Some m)) i 0 ts = false -> sole G ts i m.
+Proof. intros H b tb Eb N. eapply other_has_false; eauto. Qed.
+
+Lemma cstep_exclusive G s i : wf_cstate G s -> exclusive G (cs_thr s) -> exclusive G (cs_thr (cstep G FK s i)).
+Proof.
+  intros W X. destruct (cstep_cases G s i W) as [(_ & _ & ->)|(t & acts & t' & Et & K & Wt & -> & _)]; auto.
+  assert (Hold : forall m, holds_U G FK (Some m) t' = true -> sole G (cs_thr s) i m).
+  { intros m H. destruct (skind_holder _ _ _ _ _ _ _ _ m K Wt H) as [Q|Q].
+    - eapply exclusive_sole; eauto.
+    - apply other_sole; auto. }
   intros a b ta tb m Ea Eb Ha Hb.
   destruct (Nat.eq_dec a i) as [Ai|Ai]; destruct (Nat.eq_dec b i) as [Bi|Bi]; try congruence.
   - subst a. rewrite nth_set_nth_neq in Eb by auto. rewrite (nth_set_nth_eq _ _ _ _ Et) in Ea. inversion Ea; subst ta.
-    exfalso; eapply Hold; eauto.
+    rewrite (Hold m Ha b tb Eb Bi) in Hb. discriminate.
   - subst b. rewrite nth_set_nth_neq in Ea by auto. rewrite (nth_set_nth_eq _ _ _ _ Et) in Eb. inversion Eb; subst tb.
-    exfalso; eapply Hold; eauto.
+    rewrite (Hold m Hb a ta Ea Ai) in Ha. discriminate.
   - rewrite nth_set_nth_neq in Ea, Eb by auto. eapply X; eauto.
 Qed.
 
-Theorem crun_exclusive G sched : forall s, exclusive G (cs_thr s) -> exclusive G (cs_thr (crun G true s sched)).
-Proof. unfold crun. induction sched; simpl; intros; auto. apply IHsched, cstep_exclusive; auto. Qed.
+Theorem crun_exclusive G sched : forall s,
+  wf_cstate G s -> exclusive G (cs_thr s) -> exclusive G (cs_thr (crun G FK s sched)).
+Proof.
+  unfold crun. induction sched; simpl; intros; auto. apply IHsched; [apply cstep_wf|apply cstep_exclusive]; auto.
+Qed.
 
-Lemma cinit_exclusive G s progs : exclusive G (cs_thr (cinit s progs)).
+Lemma cinit_exclusive G s ss progs : exclusive G (cs_thr (cinit s ss progs)).
 Proof.
   intros a b ta tb m Ea Eb Ha. exfalso. unfold cinit in Ea; simpl in Ea.
   rewrite nth_error_map in Ea. destruct (nth_error progs a); inversion Ea; subst. discriminate.
 Qed.
 
-(* the cache and the per-connection streams are only touched inside the region or by the delivering thread:
-   a step of a thread that is outside the region leaves cache and stream alone *)
-Lemma tstep_outside_frame G locked st ts i t st' t' :
-  tstep G locked st ts i t = Some (st', t') ->
+(* the cache and the streams are only touched inside a region: a thread that has not yet reached the lock
+   (start / accessLock / user method) commits nothing but the bookkeeping of raising_methods -- whatever the flags *)
+Lemma tstep_outside_frame G F st ss ts i t acts t' :
+  tstep G F st ss ts i t = Some (acts, t') ->
   match t_pk t with KStart | KAcqA | KDrv => True | _ => False end ->
-  s_cells st' = s_cells st /\ s_log st' = s_log st.
+  let x := fold_left (fun x a => ceff G a x) acts (st, ss) in
+  s_cells (fst x) = s_cells st /\ s_log (fst x) = s_log st /\ snd x = ss.
 Proof.
-  unfold tstep. destruct (t_pk t); try tauto; destruct (t_ops t) as [|o r]; intros E _; try discriminate;
-    try (inversion E; subst; auto; fail).
-  - destruct (other_has _ _ _ _); try discriminate. destruct (has_driver G o); inversion E as [E']; auto.
-    unfold drv_step in E'. destruct (nth_error _ _); [destruct (pre _ _ _) as [h [x|]]|]; inversion E'; auto.
-  - inversion E as [E']. unfold drv_step in E'.
-    destruct (nth_error _ _); [destruct (pre _ _ _) as [h [x|]]|]; inversion E'; auto.
+  assert (D : forall o, let x := fold_left (fun x a => ceff G a x) (fst (drv_step G F st t o)) (st, ss) in
+                        s_cells (fst x) = s_cells st /\ s_log (fst x) = s_log st /\ snd x = ss).
+  { intros o. unfold drv_step. destruct (nth_error _ _) as [P|]; [destruct (snd (pre P (s_heap st) o))|]; simpl; auto. }
+  unfold tstep. destruct (t_pk t); try tauto; intros E _.
+  - inversion E; subst; simpl; auto.
+  - destruct (t_ops t) as [|[o|k a] r]; try discriminate.
+    destruct (other_has _ _ _ _); try discriminate. destruct (has_driver G o).
+    + inversion E; subst; simpl; auto.
+    + inversion E. rewrite (surjective_pairing (drv_step G F st t o)) in H0. inversion H0; subst. apply D.
+  - destruct (t_ops t) as [|[o|k a] r]; try discriminate.
+    inversion E. rewrite (surjective_pairing (drv_step G F st t o)) in H0. inversion H0; subst. apply D.
 Qed.
